@@ -1,9 +1,10 @@
-From Coq Require Import List ZArith Bool Lia.
+From Coq Require Import List ZArith Bool Lia String.
 From Coq.Strings Require Import Byte.
 From DRX Require Import Py.PyBytes Py.Layout Py.PyStr Proofs.PyBytesFacts Model.Riff Proofs.RiffFacts Model.Index Proofs.IndexFacts
   Model.Vwsc Model.Cast Model.Text Model.Xtract Proofs.XtractFacts Model.Dir.
 Import ListNotations.
 Open Scope Z_scope.
+Local Notation length := List.length (only parsing).
 
 Lemma nth_error_firstn' {A} (l : list A) : forall n k, (k < n)%nat -> nth_error (firstn n l) k = nth_error l k.
 Proof.
@@ -15,27 +16,27 @@ Section DirFacts.
 Variable decompile : bytes -> list bytes -> result (Z * Z * bytes * bytes).
 
 (* ---- one cast entry per cast-table slot, in order; empty slots stay empty ---- *)
-Lemma cast_loop_length chunks off rs fontmap key cas : forall cast out,
-  cast_loop chunks off rs fontmap key cas cast = Ok out -> length out = (length cast + length cas)%nat.
+Lemma cast_loop_length chunks off rs fontmap key cas : forall cast pd out pd',
+  cast_loop chunks off rs fontmap key cas cast pd = Ok (out, pd') -> length out = (length cast + length cas)%nat.
 Proof.
-  induction cas as [|ci cas IH]; intros cast out H; cbn [cast_loop] in H.
-  - injection H as <-. cbn. lia.
+  induction cas as [|ci cas IH]; intros cast pd out pd' H; cbn [cast_loop] in H.
+  - injection H as <- _. cbn. lia.
   - destruct (Z.eqb_spec ci 0).
     + apply IH in H. rewrite app_length in H. cbn [length] in *. lia.
     + destruct (of_option EIndex (index rs ci)) as [res| |]; cbn [bind] in H; try discriminate.
       destruct (chunk_of chunks off res) as [ch| |]; cbn [bind] in H; try discriminate.
       destruct (parse_cast_file_data (snd ch)) as [cd| |]; cbn [bind] in H; try discriminate.
-      destruct (link_all _ _ _ _ _ _ _) as [m| |]; cbn [bind] in H; try discriminate.
+      destruct (link_all _ _ _ _ _ _) as [[m ps]| |]; cbn [bind] in H; try discriminate.
       apply IH in H. rewrite app_length in H. cbn [length] in *. lia.
 Qed.
 
-Lemma cast_loop_prefix chunks off rs fontmap key cas : forall cast out,
-  cast_loop chunks off rs fontmap key cas cast = Ok out -> firstn (length cast) out = cast.
+Lemma cast_loop_prefix chunks off rs fontmap key cas : forall cast pd out pd',
+  cast_loop chunks off rs fontmap key cas cast pd = Ok (out, pd') -> firstn (length cast) out = cast.
 Proof.
-  induction cas as [|ci cas IH]; intros cast out H; cbn [cast_loop] in H.
-  - injection H as <-. apply firstn_all.
-  - assert (Hgen : forall x, cast_loop chunks off rs fontmap key cas (cast ++ [x]) = Ok out -> firstn (length cast) out = cast).
-    { intros x Hx. apply IH in Hx. rewrite app_length in Hx. cbn [length] in Hx.
+  induction cas as [|ci cas IH]; intros cast pd out pd' H; cbn [cast_loop] in H.
+  - injection H as <- _. apply firstn_all.
+  - assert (Hgen : forall x pdx, cast_loop chunks off rs fontmap key cas (cast ++ [x]) pdx = Ok (out, pd') -> firstn (length cast) out = cast).
+    { intros x pdx Hx. apply IH in Hx. rewrite app_length in Hx. cbn [length] in Hx.
       assert (E : firstn (length cast) (firstn (length cast + 1) out) = firstn (length cast) (cast ++ [x])) by (rewrite Hx; reflexivity).
       rewrite firstn_firstn in E. replace (Nat.min (length cast) (length cast + 1)) with (length cast) in E by lia.
       rewrite E. rewrite firstn_app, firstn_all, Nat.sub_diag. cbn. apply app_nil_r. }
@@ -43,49 +44,101 @@ Proof.
     destruct (of_option EIndex (index rs ci)) as [res| |]; cbn [bind] in H; try discriminate.
     destruct (chunk_of chunks off res) as [ch| |]; cbn [bind] in H; try discriminate.
     destruct (parse_cast_file_data (snd ch)) as [cd| |]; cbn [bind] in H; try discriminate.
-    destruct (link_all _ _ _ _ _ _ _) as [m| |]; cbn [bind] in H; try discriminate.
+    destruct (link_all _ _ _ _ _ _) as [[m ps]| |]; cbn [bind] in H; try discriminate.
     eapply Hgen; eassumption.
 Qed.
 
-Theorem empty_slot_is_empty chunks off rs fontmap key cas1 cas2 out :
-  cast_loop chunks off rs fontmap key (cas1 ++ 0 :: cas2) [] = Ok out -> nth_error out (length cas1) = Some None.
+Theorem empty_slot_is_empty chunks off rs fontmap key cas1 cas2 out pd' :
+  cast_loop chunks off rs fontmap key (cas1 ++ 0 :: cas2) [] [] = Ok (out, pd') -> nth_error out (length cas1) = Some None.
 Proof.
-  revert out. assert (G : forall cast out, cast_loop chunks off rs fontmap key (cas1 ++ 0 :: cas2) cast = Ok out ->
+  revert out. assert (G : forall cast pd out, cast_loop chunks off rs fontmap key (cas1 ++ 0 :: cas2) cast pd = Ok (out, pd') ->
                      nth_error out (length cast + length cas1) = Some None).
-  { induction cas1 as [|ci cas1 IH]; intros cast out H; cbn [app cast_loop] in H.
-    - cbn [Z.eqb] in H. pose proof (cast_loop_prefix _ _ _ _ _ _ _ _ H) as P.
+  { induction cas1 as [|ci cas1 IH]; intros cast pd out H; cbn [app cast_loop] in H.
+    - cbn [Z.eqb] in H. pose proof (cast_loop_prefix _ _ _ _ _ _ _ _ _ _ H) as P.
       rewrite app_length in P. cbn [length] in P.
       assert (E : nth_error (firstn (length cast + 1) out) (length cast) = nth_error (cast ++ [None]) (length cast)) by (rewrite P; reflexivity).
       rewrite nth_error_firstn' in E by lia. rewrite nth_error_app2 in E by lia. rewrite Nat.sub_diag in E.
       cbn [length]. rewrite Nat.add_0_r. exact E.
-    - assert (Hgen : forall x, cast_loop chunks off rs fontmap key (cas1 ++ 0 :: cas2) (cast ++ [x]) = Ok out ->
+    - assert (Hgen : forall x pdx, cast_loop chunks off rs fontmap key (cas1 ++ 0 :: cas2) (cast ++ [x]) pdx = Ok (out, pd') ->
                                nth_error out (length cast + length (ci :: cas1)) = Some None).
-      { intros x Hx. apply IH in Hx. rewrite app_length in Hx. cbn [length] in *.
+      { intros x pdx Hx. apply IH in Hx. rewrite app_length in Hx. cbn [length] in *.
         replace (length cast + S (length cas1))%nat with (length cast + 1 + length cas1)%nat by lia. exact Hx. }
       destruct (Z.eqb_spec ci 0); [eapply Hgen; eassumption|].
       destruct (of_option EIndex (index rs ci)) as [res| |]; cbn [bind] in H; try discriminate.
       destruct (chunk_of chunks off res) as [ch| |]; cbn [bind] in H; try discriminate.
       destruct (parse_cast_file_data (snd ch)) as [cd| |]; cbn [bind] in H; try discriminate.
-      destruct (link_all _ _ _ _ _ _ _) as [m| |]; cbn [bind] in H; try discriminate.
+      destruct (link_all _ _ _ _ _ _) as [[m ps]| |]; cbn [bind] in H; try discriminate.
       eapply Hgen; eassumption. }
-  intros out H. exact (G [] out H).
+  intros out H. exact (G [] [] out H).
+Qed.
+
+(* ---- the bitmap pass keeps the slots: same number of entries, empty slots stay empty, and only 'bitmap' changes ---- *)
+Lemma set_slot_length cast k v : length (set_slot cast k v) = length cast.
+Proof. revert k. induction cast as [|x r IH]; intros [|k]; cbn [set_slot length]; try reflexivity. rewrite IH. reflexivity. Qed.
+Lemma set_slot_other cast k v j : j <> k -> nth_error (set_slot cast k v) j = nth_error cast j.
+Proof.
+  revert k j. induction cast as [|x r IH]; intros [|k] [|j] H; cbn [set_slot nth_error]; try reflexivity; try congruence.
+  apply IH. congruence.
+Qed.
+Lemma bitmap_pass_length pd : forall cast out, bitmap_pass cast pd = Ok out -> length out = length cast.
+Proof.
+  induction pd as [|[[slot pid] data] pd IH]; intros cast out H; cbn [bitmap_pass] in H.
+  - injection H as <-. reflexivity.
+  - destruct (nth_error cast slot) as [[m|]|]; try discriminate.
+    destruct (decode_bitmap cast m pid data) as [m'| |]; cbn [bind] in H; try discriminate.
+    apply IH in H. rewrite set_slot_length in H. exact H.
+Qed.
+Lemma bitmap_pass_empty pd : forall cast out k, bitmap_pass cast pd = Ok out -> nth_error cast k = Some None -> nth_error out k = Some None.
+Proof.
+  induction pd as [|[[slot pid] data] pd IH]; intros cast out k H Hk; cbn [bitmap_pass] in H.
+  - injection H as <-. exact Hk.
+  - destruct (nth_error cast slot) as [[m|]|] eqn:Es; try discriminate.
+    destruct (decode_bitmap cast m pid data) as [m'| |]; cbn [bind] in H; try discriminate.
+    apply (IH _ _ k H). rewrite set_slot_other; [exact Hk|]. intros ->. rewrite Es in Hk. discriminate.
+Qed.
+(* what a decode changes in a member *)
+Lemma decode_bitmap_keeps cast m pid data m' : decode_bitmap cast m pid data = Ok m' ->
+  m_cast m' = m_cast m /\ m_text m' = m_text m /\ m_sound m' = m_sound m /\ m_palette m' = m_palette m.
+Proof.
+  unfold decode_bitmap. intros H.
+  repeat match type of H with (let! _ := ?x in _) = _ => destruct x; cbn [bind] in H; try discriminate end.
+  injection H as <-. repeat split; reflexivity.
 Qed.
 
 (* ---- frame: a slot is assembled from its own key links only ---- *)
-Theorem cast_depends_on_own_links chunks off rs fontmap key1 key2 cas : forall cast,
+Theorem cast_depends_on_own_links chunks off rs fontmap key1 key2 cas : forall cast pd,
   (forall ci, In ci cas -> key_refs key1 ci = key_refs key2 ci) ->
-  cast_loop chunks off rs fontmap key1 cas cast = cast_loop chunks off rs fontmap key2 cas cast.
+  cast_loop chunks off rs fontmap key1 cas cast pd = cast_loop chunks off rs fontmap key2 cas cast pd.
 Proof.
-  induction cas as [|ci cas IH]; intros cast H; cbn [cast_loop]; [reflexivity|].
-  assert (Hrest : forall c, cast_loop chunks off rs fontmap key1 cas c = cast_loop chunks off rs fontmap key2 cas c).
-  { intros c. apply IH. intros x Hx. apply H. right. exact Hx. }
+  induction cas as [|ci cas IH]; intros cast pd H; cbn [cast_loop]; [reflexivity|].
+  assert (Hrest : forall c p, cast_loop chunks off rs fontmap key1 cas c p = cast_loop chunks off rs fontmap key2 cas c p).
+  { intros c p. apply IH. intros x Hx. apply H. right. exact Hx. }
   destruct (Z.eqb_spec ci 0); [apply Hrest|].
   destruct (of_option EIndex (index rs ci)) as [res| |]; cbn [bind]; try reflexivity.
   destruct (chunk_of chunks off res) as [ch| |]; cbn [bind]; try reflexivity.
   destruct (parse_cast_file_data (snd ch)) as [cd| |]; cbn [bind]; try reflexivity.
   rewrite (H ci (or_introl eq_refl)).
-  destruct (link_all _ _ _ _ _ _ _) as [m| |]; cbn [bind]; try reflexivity.
+  destruct (link_all _ _ _ _ _ _) as [[m ps]| |]; cbn [bind]; try reflexivity.
   apply Hrest.
+Qed.
+
+(* the palette a bitmap gets is the one of the member it designates, wherever that member stands in the cast *)
+Theorem bitmap_palette_of_designated_member cast m pid data m' pm c :
+  decode_bitmap cast m pid data = Ok m' -> pid > 0 -> index cast (pid - 1) = Some (Some pm) -> m_palette pm = Some c ->
+  exists h w depth pw ph ptxt bmp,
+    dict_Z (m_cast m) (B "height"%string) = Ok h /\ dict_Z (m_cast m) (B "width"%string) = Ok w /\ dict_Z (m_cast m) (B "depth"%string) = Ok depth /\
+    dict_Z (m_cast m) (B "w_padding"%string) = Ok pw /\ dict_Z (m_cast m) (B "h_padding"%string) = Ok ph /\
+    Bitd.bitd2bmp w h depth pw ph ptxt c data = Ok bmp /\ m_bitmap m' = Some bmp.
+Proof.
+  unfold decode_bitmap. intros H Hp Hi Hc. destruct (Z.gtb_spec pid 0); [|lia]. rewrite Hi, Hc in H. cbn [bind] in H.
+  destruct (dict_Z (m_cast m) (B "height"%string)) as [h| |]; cbn [bind] in H; try discriminate.
+  destruct (dict_Z (m_cast m) (B "width"%string)) as [w| |]; cbn [bind] in H; try discriminate.
+  destruct (dict_Z (m_cast m) (B "depth"%string)) as [depth| |]; cbn [bind] in H; try discriminate.
+  destruct (dict_Z (m_cast m) (B "w_padding"%string)) as [pw| |]; cbn [bind] in H; try discriminate.
+  destruct (dict_Z (m_cast m) (B "h_padding"%string)) as [ph| |]; cbn [bind] in H; try discriminate.
+  destruct (if depth =? 8 then dict_S (m_cast m) (B "palette_txt"%string) else Ok []) as [ptxt| |]; cbn [bind] in H; try discriminate.
+  destruct (Bitd.bitd2bmp w h depth pw ph ptxt c data) as [bmp| |] eqn:Eb; cbn [bind] in H; try discriminate.
+  injection H as <-. exists h, w, depth, pw, ph, ptxt, bmp. repeat split; try reflexivity. exact Eb.
 Qed.
 
 (* the links listed under an owner are exactly the key entries with that owner (C17) *)
